@@ -479,20 +479,10 @@ def run_job(job):
     if max(true_c) >= 2:
         out['nontrivial'].append(digest([func, A]))
     if cor != true_c:
-        cond = {}
-        if base == 'bd':
-            # classify against the two recorded defects: k only ranges over 0..n-1; membership tested by in-degree only
-            trunc = [max([0] + [k for k in range(1, n) if cores[k] >> v & 1]) for v in range(n)]
-            inonly = [max([0] + [k for k in range(1, n) if cores[k] >> v & 1 and any(A[w][v] != 0 for w in bits(cores[k], n))]) for v in range(n)]
-            if cor == trunc:
-                cond = {'cause': 'k-range-truncated-at-n-1'}
-            elif cor == inonly:
-                cond = {'cause': 'membership-by-in-degree-only'}
-            else:
-                cond = {'cause': 'other'}
-        viol(func, 'coreness-max', cor, true_c, cond)
-    want_kn = [bin(cores[k]).count('1') for k in range(1, n)]
-    if kn[1:] != want_kn:
+        viol(func, 'coreness-max', cor, true_c)
+    nk = n if base == 'bu' else max(2 * n - 1, 0)     # bu: k = 0..N-1; bd (in+out degree): k = 0..2N-2
+    want_kn = [bin(cores[k]).count('1') for k in range(1, nk)]
+    if len(kn) != nk or kn[1:] != want_kn:
         viol(func, 'core-sizes', kn, ['(k=0 not judged)'] + want_kn)
     return out
 
